@@ -106,6 +106,8 @@ type c07Script struct {
 	Headers [][2]string `json:"headers"`
 	Chunks  []int       `json:"chunks"`
 	Flush   bool        `json:"flush"`
+	Early   bool        `json:"early_hints,omitempty"` // 103 Early Hints before the final status
+	Copy    bool        `json:"io_copy,omitempty"`     // body written with io.Copy from a plain reader (no WriteTo)
 }
 
 func genC07Script(r *rand.Rand, attempt int) c07Script {
@@ -129,6 +131,8 @@ func genC07Script(r *rand.Rand, attempt int) c07Script {
 		}
 		s.Chunks = append(s.Chunks, n)
 	}
+	s.Early = r.IntN(6) == 0
+	s.Copy = r.IntN(4) == 0
 	return s
 }
 
@@ -136,13 +140,23 @@ func (s c07Script) serve(w http.ResponseWriter, attempt int) {
 	for _, h := range s.Headers {
 		w.Header().Add(h[0], h[1])
 	}
+	if s.Early && s.Status != 0 {
+		w.Header().Set("Link", "</style.css>; rel=preload")
+		w.WriteHeader(http.StatusEarlyHints)
+		w.Header().Del("Link")
+	}
 	if s.Status != 0 {
 		w.WriteHeader(s.Status)
 	}
 	for ci, n := range s.Chunks {
 		tag := []byte(sfmt("[a%d.c%d]", attempt, ci))
 		chunk := bytes.Repeat(tag, n/len(tag)+1)[:n]
-		_, _ = w.Write(chunk)
+		if s.Copy {
+			// the way http.ServeContent, file servers and relays write: io.Copy (uses the writer's ReadFrom when it has one)
+			_, _ = io.Copy(w, struct{ io.Reader }{bytes.NewReader(chunk)})
+		} else {
+			_, _ = w.Write(chunk)
+		}
 	}
 }
 
@@ -207,6 +221,7 @@ func c07Retry(c *Ctx) {
 				if scripts[k].Status == 204 || scripts[k].Status == 304 {
 					scripts[k].Status = 200 // a recorder keeps body bytes a real server would refuse
 				}
+				scripts[k].Early = false // (a ResponseRecorder keeps the first status it is given)
 			}
 		}
 		// model: number of invocations and which attempt is final
